@@ -1,75 +1,170 @@
 """C07 - MLR is ordinary least squares with intercept.
 
-(M)/(GEN)  Mlr.tla (with RatLA.tla): B = Solve([1 X]'[1 X], [1 X]'y) exactly over the rationals by two independent solvers
-     (Gauss-Jordan with row exchange; Cramer in integer arithmetic) that must agree, exact fitted values, RSS, TSS, R2, SDEC^2;
+(M)/(GEN)  Mlr.tla (definitions in MlrDefs.tla, exact arithmetic in RatLA.tla): B = Solve([1 X]'[1 X], [1 X]'y) exactly over the rationals by two
+     independent solvers (Gauss-Jordan with row exchange; Cramer in integer arithmetic) that must agree, exact fitted values, RSS, TSS, R2, SDEC^2;
      TLC checks on every enumerated case: residuals sum to zero and are orthogonal to every predictor, no competing coefficient
      vector over {-1,0,1} has a smaller RSS, y linear in X is recovered exactly, y -> c*y+d and invertible integer re-mixings of
-     the predictors act as they must, 0 <= R2 <= 1.  Quick: every (X, y) in {-2..2}^(3x1) x {-2..2}^3 plus a random sample of
-     shapes n 3..5, p 1..2; thorough adds every 4x1 case and a larger sample.
+     the predictors act as they must, 0 <= R2 <= 1; TSS in its one-pass and two-pass form agree and do not move with y, predictors moved by a
+     constant keep slopes and fitted values (intercept b0 - h.b), the explicit-inverse kernel agrees with Cramer, regression through the origin
+     has residuals orthogonal to the predictors.  Quick: every (X, y) in {-2..2}^(3x1) x {-2..2}^3 plus a random sample of
+     shapes n 3..5, p 1..2; thorough adds every 4x1 case (with the theorems up to 0 <= R2 <= 1) and a larger sample.
 (R)  replay: every generated case is run through MLR() / MLRPredictY(); b, recalculated_y, recalc_residuals, r2y_model, sdec^2 and
      the predictions for two unseen objects are compared with TLC's rationals (1e-9) - in the original units and with X * 2^e,
      y * 2^f + g for (e,f,g) in (-30,0,0), (-20,12,0), (20,-25,0), (0,0,64) (exact in double; results mapped back exactly):
-     the fit must not depend on the units.
+     the fit must not depend on the units.  LOCATION units (class K3, event TinyU): the response moved by H = 2^17 .. 2^30 of its own units and the
+     predictors by 24 (all exact in double): TLC (TraceMlr.tla) recomputes the exact R2 / SDEC^2 / coefficients and judges with 1e-8 + 16 eps H.
 (V)  validate: c07_drv fits real problems (X 4..50 x 1..10, cond([1 X]) <= 1e4, 1..4 responses, noise 0..dominant, offsets and
-     scales), logs normal-equation residuals, coefficients against LAPACK dgels, reported R2/SDEC against their definitions,
+     scales), one input class per case (INPUT-CLASSES.md): base, responses at |mean|/sdev 1e2..3e8 (K3), predictors at |mean|/sdev up to 3e3 (K3, as far as
+     cond <= 1e4 admits), n = p+1 / p+2 / p = 1 / 50x10x4 (K1), n and p+1 around multiples of 4 / 16 / 32 (K2), whole-input magnitudes 1e-6..1e6 (K4),
+     decimal grids with ties and duplicated objects (K5, K8), a response whose SUM is 99999999 (the missing-value code met by an intermediate).
+     Logged: normal-equation residuals, coefficients against LAPACK dgels, reported R2/SDEC against their definitions - also against a long double
+     two-pass reference of RSS / TSS of the model's own fitted values (tolerance from representability, not from conditioning) -, model ymean,
      prediction identity on unseen rows, statistics on unseen rows, paired equivariance runs (y -> c*y+d with |c| from 1e-8 to
-     1e8, X -> X*diag(s) with s from 1e-8 to 1e8, invertible re-mixing), re-use of the output matrix and
-     tiny integer cases; TLC validates every event against TraceMlr.tla (bounds are a function of the logged condition number).
+     1e8, y -> y + d with |d| up to 3e8 sdev, X -> X*diag(s) with s from 1e-8 to 1e8, X -> X + h, invertible re-mixing), re-use of the output matrix and
+     tiny integer cases; TLC validates every event against TraceMlr.tla (bounds are a function of the logged condition number and offset).
+(H)  histories (K7): several fits in ONE process (glibc malloc build AND the ASan build): data and models allocated up front and fits back to back;
+     allocate/fit/free loops; multi-response then single-response then other row count; fit - free - fit; direct OrdinaryLeastSquares() on a matrix
+     overwritten in place / freed and re-allocated / with another column count / into a reused output vector; MLR() into a used model.  Every fit is
+     judged against its own data by the same ledger; MlrHist.tla (a program-shaped model of allocator + kernel with three injectable stale-state
+     variants, each of which TLC must refute) generates every history of <= 3 (thorough 5) operations over a catalogue of tiny problems, replayed in one
+     process each with TLC recomputing every exact solution.
 """
-import os, shutil
+import os, shutil, copy
+from concurrent.futures import ThreadPoolExecutor
 from vf import build, tlc, trace, ledgerkit
 from vf import run as hrun
 from vf.core import InfraError
 
 LEVEL = "exploration"
 READY = True
-TECHNIQUE = ("TLC as exact rational oracle (Mlr.tla / RatLA.tla: every tiny integer regression problem solved exactly, OLS theorems checked on each) "
-             "replayed into MLR()/MLRPredictY(), plus TLC trace validation (TraceMlr.tla) of residuals recorded from real problems against LAPACK dgels")
+TECHNIQUE = ("TLC as exact rational oracle (Mlr.tla / MlrDefs.tla / RatLA.tla: every tiny integer regression problem solved exactly, OLS theorems checked on each) "
+             "replayed into MLR()/MLRPredictY() in several unit systems incl. responses moved by up to 2^30 units (TLC recomputes R2/SDEC/coefficients), "
+             "TLC trace validation (TraceMlr.tla) of residuals recorded from real problems against LAPACK dgels and a long double reference of RSS/TSS, "
+             "and a TLA+ model of in-process histories (MlrHist.tla: allocator + least-squares kernel with three stale-state variants TLC must refute) whose histories are replayed into the library")
 LEVEL_TEXT = ("Exhaustive small-scope core (all 15,000 full-rank problems with X in {-2..2}^(3x1), y in {-2..2}^3; thorough: also every 4x1 problem) and a "
-              "random sample of shapes up to 5x2, each solved exactly by TLC and replayed into the library with a 1e-9 comparison; sampled exploration of the "
-              "property's real-valued quantifier (cond <= 1e4) with every recorded identity validated by TLC against the ledger.")
-LEVEL_NOTE = ("Trusts TLC and the two exact solvers agreeing, LAPACK dgels/dgesdd, the harness's residual evaluation and quantisation (binding self-test), "
-              "the rational-vs-double comparison (rationals rounded to the nearest double, tolerance 1e-9). The real-valued part is sampled; the exhaustive part covers tiny integer problems only.")
+              "random sample of shapes up to 5x2, each solved exactly by TLC and replayed into the library with a 1e-9 comparison (and in location units judged by TLC); "
+              "every history of <= 3 (thorough 5) fits/allocations over a catalogue of 5 tiny problems model-checked and replayed in one process each; sampled exploration of the "
+              "property's real-valued quantifier (cond <= 1e4, responses at |mean|/sdev up to 3e8, in-process histories) with every recorded identity validated by TLC against the ledger.")
+LEVEL_NOTE = ("Trusts TLC and the two exact solvers agreeing, LAPACK dgels/dgesdd, the harness's residual evaluation, its long double two-pass RSS/TSS (own error bound logged, <= 1e-10) and quantisation (binding self-tests), "
+              "the rational-vs-double comparison (rationals rounded to the nearest double, tolerance 1e-9). The real-valued part is sampled; the exhaustive part covers tiny integer problems only. "
+              "Input classes left out because the quantifier excludes them: wide or square X (n <= p: [1 X] cannot have full column rank, cond = inf > 1e4); constant or duplicated predictor columns (same reason); "
+              "predictors with |mean|/sdev beyond ~3e3 (cond([1 X]) >= |mean|/sdev would pass 1e4); constant responses in the validate part (TSS = 0, R2 undefined; the exact part keeps them and skips R2); "
+              "data values within 0.1 of 99999999 and the missing-value class K9 (the library's missing-value code; the property does not speak about missing values) - a SUM of responses equal to the code is inside and is a class; "
+              "K6 processor counts (MLR / OrdinaryLeastSquares reach no threaded kernel); K10 labels (none). Responses at |mean|/sdev above 1.5e9/(cond^2+1) are generated only for well-conditioned designs: "
+              "beyond that the calibrated first-order bound 2e-13 (cond^2+1) |y|/|y-mean| passes 1e-3 and nothing could be judged (the R2/SDEC identities against the long double reference are judged everywhere). "
+              "Address reuse in histories depends on the allocator: measured per run (coverage.classes K7:addr-reused), glibc malloc build only.")
 
 TOL = 10000
 CAP = 1000000000
 REL = 1e-9
+SENT = "K3:moment-at-sentinel"
+SIG_SENT = "MLR:coef:moment-equals-missing-code"
 
 
+def _par(n):
+    try:
+        w = int(os.environ.get("VERIF_WORKERS") or 8)
+    except ValueError:
+        w = 8
+    return ledgerkit.par(max(1, min(n, w)))
+
+
+# ---- python mirrors of the tolerance functions of TraceMlr.tla: used ONLY to label a rejected event and to pre-filter the self-test traces
 def _bound(k, amp):
     t = TOL + (k * k) // 5
     return CAP if amp > CAP // t else t * amp
 
 
+def _locsat(k, amp):
+    return (amp // 5 + 1) > (CAP - TOL) // (k * k + 1)
+
+
+def _bound_loc(k, amp):
+    return CAP if _locsat(k, amp) else TOL + (k * k + 1) * (amp // 5 + 1)
+
+
+def _bnd(cx):
+    k, a = cx.get("kappa", 1), cx.get("amp", 1)
+    return _bound_loc(k, a) if cx.get("loc") == 1 else _bound(k, a)
+
+
+def _sec(b):
+    return (b // 1000000 + 1) ** 2
+
+
+def _rep_mean(n, off):
+    return (n * (off // 1000 + 1)) // 4
+
+
+def _rep_r2(n, off):
+    return ((n * (off // 1000 + 1)) // 9000000 + 1) ** 2 + 2
+
+
+def _tol9(cx):
+    return _bound(cx.get("kappa", 1), cx.get("amp", 1)) // 1000 + 2
+
+
+def _r2low(cx):
+    return 10 + _sec(_bnd(cx)) // 1000 + 2 if cx.get("loc") == 1 else _tol9(cx)
+
+
+EXTRA_KINDS = ("PredStat", "OlsCase", "Ols", "Refit", "HFit")       # behaviour the specification covers but the statement of C07 does not state
+
+
 def _sig(ev):
     e, cx = ev.get("e"), ev.get("cx", {})
-    where = "case %s %s" % (ev.get("case"), cx)
+    where = "case %s %s" % (ev.get("case"), {k: v for k, v in cx.items()})
+    if ev.get("hx"):
+        where += " history %s" % ev["hx"]
+    if ev.get("sentinel_hit"):
+        return SIG_SENT, ("%s: the responses sum to 99999999 (no single value is near the missing-value code): Z'y[0] is skipped as 'missing' in the product (Z'Z)^-1 Z'y "
+                          "and the coefficients are not the least-squares solution (%s event %s)") % (where, e, {k: v for k, v in ev.items() if k not in ("cx", "hx")})
     if e == "Coef":
         return "MLR:coef", "%s: coefficients of response %d differ from LAPACK dgels by %.3g (relative)" % (where, ev["j"], ev["err"] * 1e-12)
     if e == "Normal":
         return "MLR:normal", "%s: response %d: residuals not orthogonal to [1 X]: %.3g" % (where, ev["j"], ev["err"] * 1e-12)
     if e == "Stat":
-        b = _bound(cx.get("kappa", 1), cx.get("amp", 1))
-        if ev["sdecgap"] > b:
-            return "MLR:sdec", "%s: response %d: reported sdec^2 differs from RSS/n by %.3g of TSS/n" % (where, ev["j"], ev["sdecgap"] * 1e-12)
+        b, n, off = _bnd(cx), cx.get("n", 50), ev.get("off", 0)
+        if ev["sdecgap"] > b or ev["sdx"] > TOL + ev["refb"] + _rep_r2(n, off):
+            return "MLR:sdec", "%s: response %d: reported sdec^2 differs from RSS/n by %.3g of TSS/n (long double reference: %.3g)" % (where, ev["j"], ev["sdecgap"] * 1e-12, ev["sdx"] * 1e-12)
         if ev["sumres"] > b:
             return "MLR:normal", "%s: response %d: residuals do not sum to zero: %.3g" % (where, ev["j"], ev["sumres"] * 1e-12)
         if ev["residgap"] > TOL:
             return "MLR:residuals", "%s: response %d: recalc_residuals is not the difference of recalculated_y and y: %.3g" % (where, ev["j"], ev["residgap"] * 1e-12)
-        return "MLR:r2", "%s: response %d: reported R2 = %.9f, 1 - RSS/TSS = %.9f (gap %.3g)" % (where, ev["j"], ev["r2"] * 1e-9, 1 - ev["rssn"] * 1e-9, ev["r2gap"] * 1e-12)
+        if ev["ymgap"] > TOL + _rep_mean(n, off):
+            return "MLR:ymean", "%s: response %d: model ymean differs from the column mean by %.3g sdev" % (where, ev["j"], ev["ymgap"] * 1e-12)
+        return "MLR:r2", ("%s: response %d (|mean|/sdev = %d): reported R2 = %.9f, 1 - RSS/TSS = %.9f (gap %.3g; against the long double two-pass reference of the model's own "
+                          "fitted values: %.3g, tolerance %.3g)") % (where, ev["j"], off, ev["r2"] * 1e-9, 1 - ev["rssn"] * 1e-9, ev["r2gap"] * 1e-12, ev["r2x"] * 1e-12, (TOL + ev["refb"] + _rep_r2(n, off)) * 1e-12)
     if e == "Recover":
         return "MLR:recover", "%s: noise-free response %d is not reproduced: %.3g" % (where, ev["j"], ev["err"] * 1e-12)
     if e == "Pred":
         return "MLR:predict", "%s: MLRPredictY on unseen objects differs from intercept + x.b (shape ok: %d, error %.3g)" % (where, ev["shape"], ev["err"] * 1e-12)
     if e == "NewStat":
         return "MLR:r2:regression-statistics", "%s: MLRRegressionStatistics on unseen objects: R2 gap %.3g, RMSE gap %.3g" % (where, ev["r2gap"] * 1e-12, ev["rmsegap"] * 1e-12)
+    if e == "PredStat":
+        return "MLR:predict:statistics", ("%s: R2 / SDEP reported by MLRPredictY for unseen objects differ from 1 - RSS/TSS(about the training mean) / sqrt(RSS/m): R2 gap %.3g, SDEP^2 gap %.3g"
+                                          % (where, ev["r2gap"] * 1e-12, ev["sdgap"] * 1e-12))
     if e == "Pair":
+        if ev["kind"] == "shift":
+            return "MLR:equivariance:shift", ("%s: paired run y -> y + d (|mean|/sdev = %s): fitted / predictions / coefficients / SDEC moved by %.3g, R2 changed by %.3g"
+                                              % (where, ev.get("off2"), ev["err"] * 1e-12, ev["r2d"] * 1e-12))
         return "MLR:equivariance:%s" % ev["kind"], "%s: paired run (%s): error %.3g" % (where, ev["kind"], ev["err"] * 1e-12)
     if e == "Reuse":
         return "MLR:predict:reused-output", ("%s: MLRPredictY into an output matrix that already holds predictions for a different number of objects: "
                                              "result has the wrong shape / stale rows (shape ok: %d, error %.3g)") % (where, ev["shape"], ev["err"] * 1e-12)
     if e == "Tiny":
         return "MLR:coef:tiny", "%s: tiny integer problem X=%s y=%s: library coefficients (1e-4 units) %s differ from the exact solution" % (where, ev["X"], ev["y"], ev["b4"])
+    if e == "TinyU":
+        return "MLR:location:tiny", ("tiny integer problem X=%s (+%d) y=%s moved by H=%d response units: library R2 = %.9f, SDEC^2 = %.8f, coefficients (1e-4 units) %s differ from the exact "
+                                     "values recomputed by TLC beyond 1e-8 + 16 eps H") % (ev["X"], ev["hx"], ev["y"], ev["H"], ev["r2"] * 1e-9, ev["sd2"] * 1e-8, ev["b4"])
+    if e == "Hist":
+        return "MLR:trace:history-bookkeeping", "history event inconsistent with the recorded shapes / digests: %s" % {k: v for k, v in ev.items() if k != "cx"}
+    if e in ("OlsCase", "Ols"):
+        return "OLS:direct", "%s: direct OrdinaryLeastSquares() call: shape ok %s, coefficients differ from LAPACK by %.3g, normal equations %.3g" % (
+            where, ev.get("shape"), ev.get("err", 0) * 1e-12, ev.get("nerr", 0) * 1e-12)
+    if e == "Refit":
+        return "MLR:refit:model-not-reset", ("MLR() into a model that already holds a fit does not give the model of the new data: b has %s columns for %s responses, r2y_model %s entries "
+                                             "(the tables are appended to, the first columns keep the previous fit)") % (ev.get("bcol"), ev.get("ny"), ev.get("r2n"))
     if e == "Abort":
         return "MLR:fit:abort:rc%s" % ev.get("rc"), "case %s: MLR did not return (rc=%s)" % (ev.get("case"), ev.get("rc"))
     if e == "Shape":
@@ -79,27 +174,129 @@ def _sig(ev):
     return "MLR:trace:%s" % e, "unexpected event %s" % ev
 
 
+def _would_fail(e):
+    k, cx = e.get("e"), e.get("cx", {})
+    b = _bnd(cx)
+    n = cx.get("n", 50)
+    if k in ("Coef", "Normal", "Recover"):
+        return e["err"] > b
+    if k == "Stat":
+        off = e.get("off", 0)
+        return (max(e["r2gap"], e["sdecgap"], e["sumres"]) > b or e["residgap"] > TOL or e.get("residsign", 1) != 1 or abs(e["r2"] - (1000000000 - e["rssn"])) > _tol9(cx)
+                or e["r2"] < -_r2low(cx) or e["r2"] > 1000000000 + _tol9(cx) or e["refb"] > 100
+                or max(e["r2x"], e["sdx"]) > TOL + e["refb"] + _rep_r2(n, off) or e["ymgap"] > TOL + _rep_mean(n, off))
+    if k == "Pred":
+        return e["shape"] != 1 or e["err"] > TOL
+    if k == "Reuse":
+        return e["shape"] != 1 or e["err"] > TOL
+    if k == "NewStat":
+        return e["r2gap"] > TOL or e["rmsegap"] > TOL
+    if k == "PredStat":
+        return e["r2gap"] > TOL + _rep_r2(n, e.get("off", 0)) or e["sdgap"] > TOL
+    if k == "Pair":
+        if e["kind"] == "shift":
+            bl = _bound_loc(cx.get("kappa", 1), e["amp2"])
+            return _locsat(cx.get("kappa", 1), e["amp2"]) or e["err"] > bl or e["r2d"] > TOL + _sec(bl) + e["amp2"] // 500 + 2
+        return e["err"] > _bound(max(cx.get("kappa", 1), e.get("kappa2", 1)), e.get("amp2", 1))
+    if k == "Ols":
+        return e["shape"] != 1 or max(e["err"], e["nerr"]) > b
+    if k == "Refit":
+        return e["shape"] != 1 or e["err"] > _bound(e["kappa"], e["amp"])
+    return True
+
+
+JUDGED = ("Coef", "Normal", "Stat", "Recover", "Pred", "NewStat", "PredStat", "Pair", "Reuse", "Ols", "Refit")
+
+
+def _annotate(events, build_name=None):
+    ledgerkit.annotate(events, ctx_fields=("n", "p", "ny", "noise", "kappa", "amp", "cls", "loc", "off", "xoff"))
+    hx = None
+    for ev in events:
+        e = ev.get("e")
+        if e == "Reset":
+            hx = None
+        elif e == "Hist":
+            hx = dict(h=ev["h"], step=ev["step"], pat=ev["pat"], rel=ev["rel"], same=ev["same"], build=build_name)
+        elif e == "OlsCase":
+            hx = dict(h=ev["h"], step=ev["step"], what=ev["what"], samex=ev["samex"], build=build_name)
+            ev["cx"] = dict(n=ev["n"], p=ev["k"] - ev["icpt"], kappa=ev["kappa"], amp=ev["amp"], loc=0, cls="K7:direct-ols")
+        elif e == "Ols" and hx:
+            pass
+        if hx is not None and e not in ("Reset",):
+            ev["hx"] = hx
+    # the Ols event needs the context of its OlsCase
+    cx = None
+    for ev in events:
+        if ev.get("e") == "OlsCase":
+            cx = ev["cx"]
+        elif ev.get("e") == "Reset":
+            cx = None
+        elif ev.get("e") == "Ols" and cx:
+            ev["cx"] = cx
+    return events
+
+
+def _classes_of_case(c):
+    """input-class tags (INPUT-CLASSES.md) of one executed case, from its Case event"""
+    tags = []
+    cls = c.get("cls", "base")
+    if cls == "K5K8:grid-dup":
+        tags += ["K5:decimal-grid-ties", "K8:duplicate-objects"]
+    elif cls.startswith("K"):
+        tags.append(cls)
+    n, p, ny = c["n"], c["p"], c["ny"]
+    if p == 1:
+        tags.append("K1:p=1")
+    if n == p + 1:
+        tags.append("K1:n=p+1")
+    if n == p + 2:
+        tags.append("K1:n=p+2")
+    tags.append("K1:ny=1" if ny == 1 else "K1:ny>1")
+    tags.append("K2:n%%4=%d" % (n % 4))
+    if n in (15, 16, 17, 31, 32, 33, 47, 48, 49):
+        tags.append("K2:n=16k+-1")
+    tags.append("K2:(p+1)%%4=%d" % ((p + 1) % 4))
+    off, xoff = c.get("off", 0), c.get("xoff", 0)
+    for lim, name in ((100000, "1e5"), (10000000, "1e7"), (100000000, "1e8")):
+        if off >= lim:
+            tags.append("K3:resp-offset>=%s" % name)
+    if xoff >= 100:
+        tags.append("K3:pred-offset>=1e2")
+    if xoff >= 1000:
+        tags.append("K3:pred-offset>=1e3")
+    return tags
+
+
 # ------------------------------------------------------------------------------------------------ (M)/(GEN) + replay
-def exact_part(ctx, exe, rd, cfgs, units="all"):
+def exact_part(ctx, exe, rd, cfgs, units="all", loc_full=4000, loc_stride=5):
     cases = []
+    nfirst = None
     for cfg, workers, label in cfgs:
         if isinstance(cfg, dict):        # constants computed per run
             cfg = tlc.write_cfg(os.path.join(rd, "%s.cfg" % label), spec="Spec", constants=cfg, invariants=["Theorems"], constraints=["Emit"], deadlock=False)
-        r = tlc.run("Mlr", cfg, workers=ledgerkit.par(workers), timeout=2400, coverage=False)
+        r = tlc.run("Mlr", cfg, workers=_par(workers), timeout=2400, coverage=False)
         ctx.add_tlc(r, label)
         if not r.ok:
             raise InfraError("Mlr.tla: theorem %s fails in the exact model itself (%s):\n%s" % (r.violation, cfg, r.trace_text[:2000]))
         if not r.emits:
             raise InfraError("Mlr.tla emitted no case (%s)" % cfg)
         ctx.note("Mlr.tla %s: %d states, %d full-rank cases solved exactly, all OLS theorems hold (%.0fs)" % (label, r.distinct, len(r.emits), r.wall))
+        if label == "gen_sample":
+            nfirst = len(cases)
         cases += r.emits
+    if nfirst is None:
+        nfirst = len(cases)
     path = os.path.join(rd, "cases.txt")
+    nloc = 0
     with open(path, "w") as f:
-        for c in cases:
-            f.write("%d %d %s %s %d %s\n" % (c["n"], c["p"], " ".join(str(v) for row in c["X"] for v in row), " ".join(str(v) for v in c["y"]),
-                                             len(c["xnew"]), " ".join(str(v) for row in c["xnew"] for v in row)))
-    out = os.path.join(rd, "replay.ndjson")
-    h = hrun.run(exe, ["--replay", path, out, units], timeout=2400)
+        for i, c in enumerate(cases):
+            # location units: the first loc_full sampled cases (random shapes up to 5x2) in all of them, the other sampled ones and every loc_stride-th enumerated one in one unit each (rotating)
+            loc = 0 if c["tss"][0] == 0 else (2 if nfirst <= i < nfirst + loc_full else (1 if i >= nfirst or i % loc_stride == 0 else 0))
+            nloc += loc > 0
+            f.write("%d %d %s %s %d %s %d\n" % (c["n"], c["p"], " ".join(str(v) for row in c["X"] for v in row), " ".join(str(v) for v in c["y"]),
+                                                len(c["xnew"]), " ".join(str(v) for row in c["xnew"] for v in row), loc))
+    out, evout = os.path.join(rd, "replay.ndjson"), os.path.join(rd, "replay_loc.ndjson")
+    h = hrun.run(exe, ["--replay", path, out, units, evout], timeout=2400)
     if h.san:
         ctx.violation("MLR:%s" % h.san, "sanitizer report while replaying TLC's tiny cases:\n%s" % h.err[:1500], dict(kind="tiny-all"))
     elif h.rc != 0:
@@ -110,6 +307,7 @@ def exact_part(ctx, exe, rd, cfgs, units="all"):
         raise InfraError("c07 replay returned results for %d of %d cases" % (len(seen), len(cases)))
     worst, nscaled = 0.0, 0
     exact = {}
+    clsn = {}
 
     def want_of(c):
         # TLC's rationals as the nearest doubles (the comparison tolerance is 1e-9, seven orders above that rounding)
@@ -123,10 +321,16 @@ def exact_part(ctx, exe, rd, cfgs, units="all"):
         if g["id"] not in exact:
             exact[g["id"]] = want_of(c)
             ctx.case(("T", str(c["X"]), str(c["y"])), c["tss"][0] != 0)
+            if c["tss"][0] == 0:
+                clsn["K8:constant-response(exact part, R2 skipped)"] = clsn.get("K8:constant-response(exact part, R2 skipped)", 0) + 1
+            if len(set(tuple(r) for r in c["X"])) < len(c["X"]):
+                clsn["K8:duplicate-rows(exact part)"] = clsn.get("K8:duplicate-rows(exact part)", 0) + 1
         w = exact[g["id"]]
         units_ = (g.get("e", 0), g.get("f", 0), g.get("g", 0))
         scaled = units_ != (0, 0, 0)
         nscaled += scaled
+        if scaled:
+            clsn[units_] = clsn.get(units_, 0) + 1
         bad = None
         try:
             checks = [("coef", [row[0] for row in g["b"]], w["b"]),
@@ -152,16 +356,77 @@ def exact_part(ctx, exe, rd, cfgs, units="all"):
             else:
                 ctx.violation("MLR:%s:tiny" % bad[0], "X=%s y=%s: %s computed by the library = %s, exact = %s" % (c["X"], c["y"], bad[0], bad[1], bad[2]),
                               dict(kind="tiny", X=c["X"], y=c["y"], xnew=c["xnew"]))
+    for k, v in clsn.items():
+        ctx.cls(k if isinstance(k, str) else "K4:units 2^%d,2^%d,+%g (exact part)" % k, v)
     if nscaled == 0:
         raise InfraError("c07 replay produced no run in other units")
     ctx.cov["exact_case_runs_in_other_units"] = nscaled
     for c in cases[:2] + cases[len(cases) // 2:len(cases) // 2 + 1]:
         ctx.sample(dict(kind="exact case from Mlr.tla", X=c["X"], y=c["y"], b=c["b"], r2=c["r2"], sdec2=c["sdec2"]), 3)
     ctx.cov.setdefault("observed_max", {})["replay_vs_exact_rel"] = worst
-    return len(cases)
+    # ---- location units: judged by TLC (TinyU)
+    tu = hrun.read_ndjson(evout)
+    if nloc and not tu and not h.san:
+        raise InfraError("c07 replay wrote no TinyU event although %d cases asked for location units" % nloc)
+    tinyu_part(ctx, tu)
+    return len(cases), tu
+
+
+def tinyu_part(ctx, tu, label="trace_tinyu"):
+    if not tu:
+        return
+    clsn = {}
+    for e in tu:
+        ctx.case(("TU", str(e["X"]), str(e["y"]), e["u"]), True)
+        k = (e["H"].bit_length() - 1, bool(e["hx"]))
+        clsn[k] = clsn.get(k, 0) + 1
+    for k, v in clsn.items():
+        ctx.cls("K3:exact-response-moved-by-2^%d%s" % (k[0], "+pred-moved" if k[1] else ""), v)
+    per = 2500
+    chunks = [[dict(e="Reset", case=3000000 + i)] + tu[i:i + per] + [dict(e="End")] for i in range(0, len(tu), per)]
+    with ThreadPoolExecutor(_par(4)) as ex:
+        results = list(ex.map(lambda ch: tlc.validate_trace("TraceMlr", "Trace_Mlr_prop.cfg", ch, timeout=1800), chunks))
+    for i, (ch, (ok, n, r)) in enumerate(zip(chunks, results)):
+        ctx.add_tlc(r, "%s_%d" % (label, i))
+        if ok:
+            continue
+
+        def on_reject(ev, idx, block):
+            sig, what = _sig(ev)
+            ctx.violation(sig, what, dict(kind="tinyu", X=ev.get("X"), y=ev.get("y"), u=ev.get("u")))
+            return lambda e: e.get("e") == "TinyU"       # one witness per chunk is enough: the rest of the chunk is not re-examined
+        trace.check_trace(ctx, "TraceMlr", "Trace_Mlr_prop.cfg", "Trace_Mlr_prop.cfg", ch, on_reject, drop="event", label="%s_%d_r" % (label, i))
+    ctx.traces(len(tu))
+    ctx.cov["location_unit_runs_judged_by_tlc"] = ctx.cov.get("location_unit_runs_judged_by_tlc", 0) + len(tu)
 
 
 # ------------------------------------------------------------------------------------------------ validate
+def _mark_sentinel(events):
+    """cases of the class 'sum of the responses = 99999999' whose COEFFICIENTS are wrong: every rejected event of such a case is the same defect"""
+    bad = set(e.get("case") for e in events if e.get("e") == "Coef" and e.get("cx", {}).get("cls") == SENT and _would_fail(e))
+    for e in events:
+        if e.get("case") in bad and e.get("e") in JUDGED:
+            e["sentinel_hit"] = 1
+    return bad
+
+
+def _reject_handler(ctx, replay_of, events=()):
+    """on_reject for trace.check_trace: violations for what the statement covers, EXTRA-FINDING for the rest; returns the duplicate filter"""
+    bad = _mark_sentinel(events)
+
+    def on_reject(ev, idx, block):
+        sig, what = _sig(ev)
+        if sig == SIG_SENT:
+            ctx.violation(sig, what, replay_of(ev))
+            return lambda e: e.get("case") in bad
+        if ev.get("e") in EXTRA_KINDS:
+            ctx.extra(sig, what)
+        else:
+            ctx.violation(sig, what, replay_of(ev))
+        return lambda e: e.get("e") == ev.get("e") and _sig(e)[0] == sig and _would_fail(e)
+    return on_reject
+
+
 def validate_part(ctx, exe, rd, total, parts, only=None):
     if only is not None:
         seed = only["seed"]
@@ -170,17 +435,36 @@ def validate_part(ctx, exe, rd, total, parts, only=None):
         results = [([None, seed, only["idx"], only.get("count", 1)], h)]
     else:
         seed = ctx.seed
-        events, maxima, results = ledgerkit.drive(ctx, exe, rd, "c07_", seed, total, parts, timeout=2400)
+        events, maxima, results = ledgerkit.drive(ctx, exe, rd, "c07_", seed, total, parts, timeout=2400, workers=_par(8))
     ledgerkit.sanitizer_reports(ctx, results, "MLR", lambda j: dict(kind="range", seed=j[1], first=j[2], count=j[3]))
-    ledgerkit.annotate(events, ctx_fields=("n", "p", "ny", "noise", "kappa", "amp"))
+    _annotate(events)
     cases = [e for e in events if e["e"] == "Case"]
     if not cases:
         raise InfraError("c07 harness produced no Case events")
-    kinds = {k: sum(1 for e in events if e["e"] == k) for k in ("Coef", "Normal", "Stat", "Recover", "Pred", "NewStat", "Pair", "Reuse", "Tiny")}
+    kinds = {k: sum(1 for e in events if e["e"] == k) for k in ("Coef", "Normal", "Stat", "Recover", "Pred", "PredStat", "NewStat", "Pair", "Reuse", "Tiny")}
+    pairs = {}
+    for e in events:
+        if e["e"] == "Pair":
+            pairs[e["kind"]] = pairs.get(e["kind"], 0) + 1
     if only is None and min(kinds.values()) == 0:
         raise InfraError("c07 harness stopped logging some event kind: %s" % kinds)
+    if only is None and set(pairs) != {"affine", "shift", "xscale", "xshift", "remix"}:
+        raise InfraError("c07 harness stopped running some kind of paired run: %s" % pairs)
+    clsn = {}
     for c in cases:
-        ctx.case(("V", c["n"], c["p"], c["ny"], c["noise"]), True)
+        ctx.case(("V", c["n"], c["p"], c["ny"], c["noise"], c.get("cls")), True)
+        clsn[c.get("cls")] = clsn.get(c.get("cls"), 0) + 1
+        for t in _classes_of_case(c):
+            ctx.cls(t)
+    for k, v in pairs.items():
+        ctx.cls({"shift": "K3:paired-run response moved by up to 3e8 sdev", "xshift": "K3:paired-run predictors moved", "xscale": "K4:paired-run predictor units 1e-8..1e8",
+                 "affine": "K4:paired-run response units 1e-8..1e8", "remix": "paired-run predictors re-mixed"}[k], v)
+    if only is None:
+        missing = [k for k in ("base", "K3:resp-offset", "K3:pred-offset", "K1:saturated", "K2:block-edge", "K4:magnitude", "K5K8:grid-dup", SENT) if not clsn.get(k)]
+        if missing:
+            raise InfraError("c07 harness generated no case of class %s (%s)" % (missing, clsn))
+        if not any(c.get("off", 0) >= 100000000 for c in cases) or not any(c["n"] == c["p"] + 1 for c in cases):
+            raise InfraError("c07 harness reached no response at |mean|/sdev >= 1e8 or no saturated case")
     for b in tlc.split_blocks(events):
         f = [e for e in b if e["e"] == "Case"]
         if not f or any(e["e"] in ("Abort", "Shape") for e in b):
@@ -190,124 +474,369 @@ def validate_part(ctx, exe, rd, total, parts, only=None):
         if cnt != dict(Coef=f["ny"], Normal=f["ny"], Stat=f["ny"], Pred=1, End=1):
             raise InfraError("c07 harness logged an incomplete block for case %s: %s" % (b[0].get("case"), cnt))
     for b in tlc.split_blocks(events):
-        if len(b) < 20 and any(e["e"] == "Tiny" for e in b):
+        if len(b) < 24 and any(e["e"] == "Tiny" for e in b):
             ctx.sample(dict(case=b[0].get("case"), seed=seed, events=[{k: v for k, v in e.items() if k != "cx"} for e in b[:16]]), 5)
     ctx.cov["events"] = kinds
+    ctx.cov["paired_runs"] = pairs
+    ctx.cov["validate_cases_per_class"] = clsn
     ctx.cov.setdefault("observed_max", {}).update(maxima)
-    kh = {}
+    kh, oh = {}, {}
     for c in cases:
         d = len(str(c["kappa"])) - 1
         kh["1e%d" % d] = kh.get("1e%d" % d, 0) + 1
+    for e in events:
+        if e["e"] == "Stat":
+            d = len(str(e["off"])) - 1
+            oh["1e%d" % d] = oh.get("1e%d" % d, 0) + 1
     ctx.cov["condition_number_decades"] = kh
-    ctx.cov["tolerance"] = "(1e-8 + 2e-13*kappa^2) * |y|/|y - mean|, capped at 1e-3 (TraceMlr.tla Bound); replay comparison 1e-9 relative"
+    ctx.cov["response_offset_decades(|mean|/sdev, per fitted response)"] = oh
+    ctx.cov["tolerance"] = ("first order: (1e-8 + 2e-13*kappa^2) * |y|/|y - mean|, capped at 1e-3 (TraceMlr.tla Bound); location class: 1e-8 + 2e-13*(kappa^2+1)*|y|/|y-mean| (BoundLoc, never generated saturated); "
+                            "R2/SDEC^2 against the long double two-pass reference: 1e-8 + reference bound + (n eps off)^2; R2 under a response shift: 1e-8 + BoundLoc^2 + 8 eps amp; "
+                            "exact location units: 1e-8 + 16 eps H; replay comparison 1e-9 relative")
 
-    def on_reject(ev, idx, block):
-        sig, what = _sig(ev)
-        ctx.violation(sig, what, dict(kind="case", seed=seed, idx=ev.get("case"), event={k: v for k, v in ev.items() if k != "cx"}))
-        return lambda e: e.get("e") == ev.get("e") and _sig(e)[0] == sig and _would_fail(e)
-    ledgerkit.check(ctx, "TraceMlr", "Trace_Mlr.cfg", "Trace_Mlr_prop.cfg", events, on_reject, "trace_mlr")
+    def replay_of(ev):
+        return dict(kind="case", seed=seed, idx=ev.get("case"), event={k: v for k, v in ev.items() if k not in ("cx", "hx")})
+    ledgerkit.check(ctx, "TraceMlr", "Trace_Mlr.cfg", "Trace_Mlr_prop.cfg", events, _reject_handler(ctx, replay_of, events), "trace_mlr")
     ctx.traces(len(cases))
     return events
 
 
-def _would_fail(e):
-    k, cx = e.get("e"), e.get("cx", {})
-    b = _bound(cx.get("kappa", 1), cx.get("amp", 1))
-    if k in ("Coef", "Normal", "Recover"):
-        return e["err"] > b
-    if k == "Stat":
-        return max(e["r2gap"], e["sdecgap"], e["sumres"]) > b or e["residgap"] > TOL or e.get("residsign", 1) != 1 or abs(e["r2"] - (1000000000 - e["rssn"])) > b // 1000 + 2
-    if k == "Pred":
-        return e["shape"] != 1 or e["err"] > TOL
-    if k == "Reuse":
-        return e["shape"] != 1 or e["err"] > TOL
-    if k == "NewStat":
-        return e["r2gap"] > TOL or e["rmsegap"] > TOL
-    if k == "Pair":
-        return e["err"] > _bound(max(cx.get("kappa", 1), e.get("kappa2", 1)), e.get("amp2", 1))
-    return True
+# ------------------------------------------------------------------------------------------------ histories (K7)
+REL_CLASS = {"same-shape": "K7:same-shape-other-data", "other-shape": "K7:other-shape", "again": "K7:earlier-problem-again", "same-cols": "K7:same-columns-other-rows",
+             "same-data": "K7:same-data-again"}
 
 
-def selftests(ctx, events):
-    blocks = [b for b in tlc.split_blocks(events) if not any(e["e"] in ("Abort", "Shape") for e in b)]
-    ev = [e for b in blocks[:40] for e in b]
-    ev = [e for e in ev if not (e["e"] in ("Coef", "Normal", "Stat", "Recover", "Pred", "NewStat", "Pair", "Reuse") and _would_fail(e))]
+def history_part(ctx, exes, rd, nhist, only=None):
+    """real-valued histories on both builds; every fit block is validated like a single fit, Refit blocks separately (EXTRA)"""
+    allev = []
+    for bname, exe in exes.items():
+        if only is not None and only.get("build") not in (None, bname):
+            continue
+        first, count = (only["h"], 1) if only is not None else (0, nhist)
+        seed = only["seed"] if only is not None else ctx.seed
+        per = (count + 3) // 4
+        jobs = [["--hist", os.path.join(rd, "hist_%s_%d.ndjson" % (bname, i)), seed, first + i * per, min(per, count - i * per)] for i in range(4) if i * per < count]
+        res = hrun.run_many(exe, jobs, timeout=1200, workers=_par(4))
+        events = []
+        for j, h in zip(jobs, res):
+            if h.timed_out:
+                raise InfraError("c07 history driver timed out (%s)" % bname)
+            if h.san:
+                ctx.violation("MLR:%s" % h.san, "sanitizer report in in-process histories %s..+%s:\n%s" % (j[3], j[4], h.err[:1500]), dict(kind="hist", seed=seed, h=j[3], count=j[4], build=bname))
+            elif h.rc != 0:
+                raise InfraError("c07 history driver failed rc=%d (%s): %s" % (h.rc, bname, h.err[-500:]))
+            events += hrun.read_ndjson(j[1])
+        _annotate(events, bname)
+        hist = [e for e in events if e["e"] == "Hist"]
+        ols = [e for e in events if e["e"] == "OlsCase"]
+        refit = [e for e in events if e["e"] == "Refit"]
+        if only is None and (not hist or not ols or not refit):
+            raise InfraError("c07 history driver (%s) logged no Hist / OlsCase / Refit event: %d %d %d" % (bname, len(hist), len(ols), len(refit)))
+        for e in hist:
+            ctx.case(("H", bname, e["h"], e["step"]), True)
+            if e["rel"] in REL_CLASS:
+                ctx.cls(REL_CLASS[e["rel"]] + "(%s)" % bname)
+            if e["same"] == 1:
+                ctx.cls("K7:addr-reused(%s)" % bname)
+                if e["rel"] in ("same-shape", "same-cols", "again"):
+                    ctx.cls("K7:addr-reused+same-columns+other-data(%s)" % bname)
+            if e.get("note") == "data-overwritten-in-place":
+                ctx.cls("K7:user-data-overwritten-in-place(%s)" % bname)
+            if e["pat"] == 2 and e["step"] == 1:
+                ctx.cls("K7:multi-response-then-single(%s)" % bname)
+        for e in ols:
+            ctx.case(("O", bname, e["h"], e["step"]), True)
+            ctx.cls("K7:direct-ols:%s%s(%s)" % (e["what"], "+same-address" if e["samex"] else "", bname))
+        for e in refit:
+            ctx.cls("K7:refit-into-used-model(%s)" % bname)
+        if only is None and bname == "plain":
+            # measured, not assumed: it depends on the allocator AND on the allocation pattern of the library under test, so it is reported, never an error
+            reached = sum(1 for e in hist if e["same"] == 1 and e["rel"] in ("same-shape", "same-cols"))
+            ctx.cov["k7_same_width_fit_at_address_of_previous_design_matrix"] = reached
+            if not reached:
+                ctx.note("no history of the glibc build re-used the address of the previous design matrix for a same-width problem in this run (allocator / allocation pattern changed): that sub-class of K7 was not reached")
+        # Refit blocks apart (behaviour the statement does not cover)
+        blocks = tlc.split_blocks(events)
+        main = [e for b in blocks if not any(x["e"] == "Refit" for x in b) for e in b]
+        rf = [e for b in blocks if any(x["e"] == "Refit" for x in b) for e in b]
+        if rf:
+            ok, n, r = tlc.validate_trace("TraceMlr", "Trace_Mlr_prop.cfg", rf)
+            ctx.add_tlc(r, "trace_refit_%s" % bname)
+            if not ok and n < len(rf):
+                sig, what = _sig(rf[n])
+                ctx.extra(sig, what)
+
+        def replay_of(ev, bname=bname, seed=seed):
+            hh = (ev.get("hx") or {}).get("h")
+            if hh is None and ev.get("case") is not None:
+                hh = (ev["case"] - 1000000) // 16
+            return dict(kind="hist", seed=seed, h=hh, build=bname, event={k: v for k, v in ev.items() if k not in ("cx", "hx")})
+        ledgerkit.check(ctx, "TraceMlr", "Trace_Mlr.cfg", "Trace_Mlr_prop.cfg", main, _reject_handler(ctx, replay_of), "trace_hist_%s" % bname)
+        ctx.traces(len(hist) + len(ols))
+        if bname == "plain":
+            for b in tlc.split_blocks(main):
+                if any(e["e"] == "Hist" and e["same"] == 1 and e["rel"] == "same-shape" for e in b):
+                    ctx.sample(dict(kind="history step (glibc build): same shape, other data, design matrix at the address of the previous fit",
+                                    events=[{k: v for k, v in e.items() if k not in ("cx", "hx")} for e in b[:8]]), 6)
+                    break
+        allev += events
+    return allev
+
+
+def tiny_history_part(ctx, exes, rd, maxops, only=None):
+    """MlrHist.tla: model-check the history model (the conforming variant holds, each stale-state variant is refuted), replay every emitted history"""
+    if only is None:
+        def mc(fault):
+            cfg = tlc.write_cfg(os.path.join(rd, "MC_MlrHist_%s.cfg" % fault), spec="Spec", constants=dict(Fault=fault, MaxOps=maxops),
+                                invariants=["TypeOK", "OwnSolution", "StaleAddrSeen"], constraints=["Emit"] if fault == "none" else [], deadlock=False)
+            return tlc.run("MlrHist", cfg, workers=_par(2), timeout=2400)
+        with ThreadPoolExecutor(_par(4)) as ex:
+            rs = dict(zip(("none", "addr", "shape", "accum"), ex.map(mc, ("none", "addr", "shape", "accum"))))
+        for f, r in rs.items():
+            ctx.add_tlc(r, "mlrhist_%s" % f)
+        r = rs["none"]
+        if not r.ok:
+            raise InfraError("MlrHist.tla: invariant %s fails for the conforming kernel:\n%s" % (r.violation, r.trace_text[:1500]))
+        if r.zero_actions():
+            raise InfraError("MlrHist.tla: actions never taken: %s" % r.zero_actions())
+        for f in ("addr", "shape", "accum"):
+            if rs[f].ok or rs[f].violation != "OwnSolution":
+                raise InfraError("MlrHist.tla: the stale-state variant '%s' is not refuted by the histories of length <= %d (%s): the history model would be vacuous" % (f, maxops, rs[f].violation))
+        hists = r.emits
+        if not hists:
+            raise InfraError("MlrHist.tla emitted no history")
+        exp = {f: sum(1 for h in hists if h["exposes"][f]) for f in ("addr", "shape", "accum")}
+        if min(exp.values()) == 0:
+            raise InfraError("no emitted history exposes variant(s) %s" % [f for f, v in exp.items() if not v])
+        ctx.note("MlrHist.tla: %d states, %d maximal histories of %d operations; OwnSolution holds for the conforming kernel and is refuted for addr/shape/accum; histories exposing them: %s"
+                 % (r.distinct, len(hists), maxops, exp))
+        ctx.cov["tiny_histories"] = dict(states=r.distinct, histories=len(hists), max_ops=maxops, exposing=exp)
+    else:
+        hists = [only["hist"]]
+    path = os.path.join(rd, "hist.txt")
+    with open(path, "w") as f:
+        for i, h in enumerate(hists):
+            fits = iter(h["fits"])
+            toks = ["%d %d" % (i, len(h["ops"]))]
+            for op in h["ops"]:
+                if op["op"] == "F":
+                    ft = next(fits)
+                    toks.append("F %d %d %d %s %s %d" % (len(ft["X"]), len(ft["X"][0]), len(ft["Y"]), " ".join(str(v) for row in ft["X"] for v in row),
+                                                         " ".join(str(v) for yv in ft["Y"] for v in yv), ft["want"]))
+                else:
+                    toks.append("A")
+            f.write(" ".join(toks) + "\n")
+    for bname, exe in exes.items():
+        if only is not None and only.get("build") not in (None, bname):
+            continue
+        out = os.path.join(rd, "histreplay_%s.ndjson" % bname)
+        h = hrun.run(exe, ["--histreplay", path, out], timeout=2400)
+        if h.san:
+            ctx.violation("MLR:%s" % h.san, "sanitizer report while replaying TLC's histories:\n%s" % h.err[:1500], dict(kind="tinyhist-all", build=bname))
+        elif h.rc != 0:
+            raise InfraError("c07 histreplay failed rc=%d (%s): %s" % (h.rc, bname, h.err[-500:]))
+        events = hrun.read_ndjson(out)
+        _annotate(events, bname)
+        hf = [e for e in events if e["e"] == "HFit"]
+        nfits = sum(len(x["fits"]) for x in hists)
+        if len(hf) != nfits and not h.san and not any(e["e"] == "Abort" for e in events):
+            raise InfraError("c07 histreplay (%s) returned %d fits of %d" % (bname, len(hf), nfits))
+        agree = sum(1 for e in hf if e["same"] == e["want"])
+        reused = sum(1 for e in hf if e["same"] == 1)
+        ctx.cov.setdefault("tiny_histories", {})["allocator_%s" % bname] = dict(fits=len(hf), address_of_previous_design_reused=reused, model_predicted=sum(1 for e in hf if e["want"] == 1), agree=agree)
+        ctx.cls("K7:tiny-history-fit(%s)" % bname, len(hf))
+        if reused:
+            ctx.cls("K7:tiny-history-addr-reused(%s)" % bname, reused)
+        for i, x in enumerate(hists):
+            ctx.case(("TH", bname, str(x["ops"])), True)
+
+        def replay_of(ev, bname=bname):
+            cid = ev.get("case")
+            hh = hists[cid - 2000000] if cid is not None and 0 <= cid - 2000000 < len(hists) else None
+            return dict(kind="tinyhist", build=bname, hist=hh, event={k: v for k, v in ev.items() if k not in ("cx", "hx")})
+        ledgerkit.check(ctx, "TraceMlr", "Trace_Mlr.cfg", "Trace_Mlr_prop.cfg", events, _reject_handler(ctx, replay_of), "trace_tinyhist_%s" % bname)
+        ctx.traces(len(hists))
+        if bname == "plain" and hists:
+            ctx.sample(dict(kind="history from MlrHist.tla", ops=hists[min(5, len(hists) - 1)]["ops"], exposes=hists[min(5, len(hists) - 1)]["exposes"]), 6)
+    return hists
+
+
+# ------------------------------------------------------------------------------------------------ binding self-tests
+def selftests(ctx, events, hist_events, tinyu):
+    blocks = [b for b in tlc.split_blocks(events) if not any(e["e"] in ("Abort", "Shape") for e in b) and not any(e.get("cls") == SENT for e in b)]
+    # the first blocks of every class so that every event kind is present
+    pick, per = [], {}
+    for b in blocks:
+        c = next((e.get("cls") for e in b if e["e"] == "Case"), None)
+        if per.get(c, 0) < 8:
+            per[c] = per.get(c, 0) + 1
+            pick.append(b)
+    ev = [e for b in pick for e in b]
+    ev = [e for e in ev if not (e["e"] in JUDGED and _would_fail(e))]
+
+    def first(evs, pred, mut):
+        for e in evs:
+            if pred(e):
+                mut(e)
+                return True
+        return False
 
     def corrupt_normal(evs):
-        for e in evs:
-            cx = e.get("cx", {})
-            if e["e"] == "Normal" and cx.get("kappa", 10 ** 6) <= 100 and cx.get("amp", 10 ** 6) <= 10:      # bound <= 1.2e-7 there
-                e["err"] = min(2000000000, max(1, e["err"]) * 1000000)
-                return True
-        return False
+        return first(evs, lambda e: e["e"] == "Normal" and e.get("cx", {}).get("loc") == 0 and e["cx"].get("kappa", 10 ** 6) <= 100 and e["cx"].get("amp", 10 ** 6) <= 10,      # bound <= 1.2e-7 there
+                     lambda e: e.update(err=min(2000000000, max(1, e["err"]) * 1000000)))
 
     def corrupt_tiny(evs):
-        for e in evs:
-            if e["e"] == "Tiny":
-                e["b4"][0] += 7
-                return True
-        return False
+        return first(evs, lambda e: e["e"] == "Tiny", lambda e: e["b4"].__setitem__(0, e["b4"][0] + 7))
 
-    def corrupt_r2(evs):
-        for e in evs:
-            if e["e"] == "Stat":
-                e["r2"] = e["r2"] - 5000000 if e["r2"] > 5000000 else e["r2"] + 5000000      # R2 off by 0.005: no longer 1 - RSS/TSS
-                return True
-        return False
-    trace.binding_selftest(ctx, "TraceMlr", "Trace_Mlr_prop.cfg", ev, corrupt_normal, "binding_normal_x1e6")
-    trace.binding_selftest(ctx, "TraceMlr", "Trace_Mlr_prop.cfg", ev, corrupt_r2, "binding_r2_vs_rss")
-    trace.binding_selftest(ctx, "TraceMlr", "Trace_Mlr_prop.cfg", ev, corrupt_tiny, "binding_tiny_coefficient")
+    def corrupt_r2(evs):      # R2 off by 0.005: no longer 1 - RSS/TSS
+        return first(evs, lambda e: e["e"] == "Stat", lambda e: e.update(r2=e["r2"] - 5000000 if e["r2"] > 5000000 else e["r2"] + 5000000))
+
+    def corrupt_r2x(evs):     # the reported R2 is 2e-7 away from the long double reference, at a response with |mean|/sdev >= 1e6: only the representability-based tolerance sees it
+        return first(evs, lambda e: e["e"] == "Stat" and e["off"] >= 1000000, lambda e: e.update(r2x=e["r2x"] + 200000))
+
+    def corrupt_ymean(evs):
+        return first(evs, lambda e: e["e"] == "Stat" and e["off"] < 1000, lambda e: e.update(ymgap=e["ymgap"] + 1000000))
+
+    def corrupt_shift(evs):   # R2 moves by 5e-6 under a shift of the response
+        return first(evs, lambda e: e["e"] == "Pair" and e["kind"] == "shift", lambda e: e.update(r2d=e["r2d"] + 5000000))
+
+    def corrupt_xshift(evs):
+        return first(evs, lambda e: e["e"] == "Pair" and e["kind"] == "xshift" and e["kappa2"] <= 100 and e["amp2"] <= 10 and e.get("cx", {}).get("kappa", 10 ** 6) <= 100,
+                     lambda e: e.update(err=min(2000000000, max(1, e["err"]) * 1000000)))
+
+    def corrupt_predstat(evs):
+        return first(evs, lambda e: e["e"] == "PredStat" and e["off"] < 1000, lambda e: e.update(r2gap=e["r2gap"] + 1000000))
+    tasks = []
+    for name, fn in (("binding_normal_x1e6", corrupt_normal), ("binding_r2_vs_rss", corrupt_r2), ("binding_tiny_coefficient", corrupt_tiny), ("binding_r2_vs_longdouble_at_offset", corrupt_r2x),
+                     ("binding_ymean", corrupt_ymean), ("binding_shift_r2", corrupt_shift), ("binding_xshift", corrupt_xshift), ("binding_predstat", corrupt_predstat)):
+        tasks.append((ev, fn, name))
+    # histories
+    hb = [b for b in tlc.split_blocks(hist_events) if not any(e["e"] in ("Abort", "Shape", "Refit") for e in b)]
+    hev = [e for b in hb[:60] for e in b]
+    hev = [e for e in hev if not (e["e"] in JUDGED and _would_fail(e))]
+
+    def corrupt_hist(evs):
+        return first(evs, lambda e: e["e"] == "Hist" and e["rel"] == "same-shape", lambda e: e.update(rel="other-shape"))
+
+    def corrupt_histfit(evs):      # a stale fit inside a history: coefficients of the second fit 1 % off
+        seen = [False]
+
+        def pred(e):
+            if e["e"] == "Hist":
+                seen[0] = e["step"] >= 1
+            return seen[0] and e["e"] == "Coef" and e["cx"].get("kappa", 10 ** 6) <= 1000 and e["cx"].get("amp", 10 ** 6) <= 30
+        return first(evs, pred, lambda e: e.update(err=10000000000 // 1000))
+
+    def corrupt_ols(evs):
+        return first(evs, lambda e: e["e"] == "Ols", lambda e: e.update(nerr=2000000000))
+    for name, fn in (("binding_history_relation", corrupt_hist), ("binding_history_second_fit", corrupt_histfit), ("binding_direct_ols", corrupt_ols)):
+        tasks.append((hev, fn, name))
+    # Refit: a conforming record is accepted, a model with appended tables is not
+    good = [dict(e="Reset", case=1), dict(e="Refit", h=0, shape=1, bcol=1, r2n=1, ny=1, err=5, kappa=10, amp=2), dict(e="End")]
+    tasks.append((good, lambda evs: first(evs, lambda e: e["e"] == "Refit", lambda e: e.update(shape=0)), "binding_refit"))
+    # location units
+    if tinyu:
+        sane = [e for e in tinyu if 0 <= e["r2"] <= 1000000000 and 0 <= e["sd2"] <= 400000000 and all(abs(v) < 100000000 for v in e["b4"]) and e["shape"] == 1]
+        tv = [dict(e="Reset", case=1)] + copy.deepcopy(sane[:60]) + [dict(e="End")]
+        tasks.append((tv, lambda evs: first(evs, lambda e: e["e"] == "TinyU" and e["H"] <= 2 ** 20, lambda e: e.update(r2=e["r2"] - 300)), "binding_tinyu_r2_3e-7"))
+        tasks.append((tv, lambda evs: first(evs, lambda e: e["e"] == "TinyU", lambda e: e["b4"].__setitem__(0, e["b4"][0] + 9)), "binding_tinyu_intercept"))
+        tasks.append((tv, lambda evs: first(evs, lambda e: e["e"] == "TinyU" and e["H"] <= 2 ** 20, lambda e: e.update(sd2=e["sd2"] + 40)), "binding_tinyu_sdec"))
+
+    def one(t):
+        if t[2] == "binding_refit":      # the conforming record itself must be accepted first
+            ok, n, r = tlc.validate_trace("TraceMlr", "Trace_Mlr_prop.cfg", t[0])
+            if not ok:
+                raise InfraError("TraceMlr rejects a conforming Refit record")
+        return trace.binding_selftest(ctx, "TraceMlr", "Trace_Mlr_prop.cfg", t[0], t[1], t[2])
+    with ThreadPoolExecutor(_par(4)) as ex:
+        list(ex.map(one, tasks))
+
+
+def _builds():
+    lib = build.build_lib("san")
+    exe = build.build_harness("c07", ["c07_drv.c"], lib)
+    libp = build.build_lib("plain")
+    exep = build.build_harness("c07", ["c07_drv.c"], libp)
+    return exe, {"plain": exep, "san": exe}
 
 
 def run(ctx):
     ctx.assumptions += [
-        "exact part: TLC computes B = Solve([1 X]'[1 X], [1 X]'y), fitted values, RSS, TSS, R2, SDEC^2 over the rationals for every enumerated tiny integer problem (two solvers must agree); the comparison of the library's doubles with those rationals (rounded to the nearest double; 1e-9 relative) is done by the check driver, in the original units and in four other unit systems (powers of two, exact)",
-        "validate part: residuals are evaluated by the harness in double precision (LAPACK dgels as independent optimum, dgesdd for cond([1 X])) and logged as integers; TLC decides every comparison with a bound (1e-8 + 2e-13*kappa^2)*|y|/|y-mean| (capped 1e-3) calibrated on the unchanged tree (worst observed/bound 7e-3 over 3000 models)",
-        "inputs inside the quantifier: n 4..50, p 1..min(10,n-2), cond([1 X]) <= 1e4, responses non-constant; sampled (seeded)",
+        "exact part: TLC computes B = Solve([1 X]'[1 X], [1 X]'y), fitted values, RSS, TSS, R2, SDEC^2 over the rationals for every enumerated tiny integer problem (two solvers must agree); the comparison of the library's doubles with those rationals (rounded to the nearest double; 1e-9 relative) is done by the check driver, in the original units and in four other unit systems (powers of two, exact); in the seven location unit systems (response moved by 2^17..2^30 units, predictors by 24) TLC itself recomputes and compares (TinyU)",
+        "validate part: residuals are evaluated by the harness in double precision (LAPACK dgels as independent optimum, dgesdd for cond([1 X])), RSS and TSS of the model's own fitted values additionally two-pass in long double (own error bound logged), all logged as integers; TLC decides every comparison with bounds that are functions of the logged kappa, amp, n, offset: (1e-8 + 2e-13*kappa^2)*|y|/|y-mean| (capped 1e-3) calibrated on the unchanged tree (worst observed/bound 7e-3 over 3000 models); location class 1e-8 + 2e-13*(kappa^2+1)*|y|/|y-mean| (worst observed/bound 9e-4 over 12000 models of that class on the tree with fixes/C07-ols-intermediate-sentinel.diff; representability-based identities: worst observed/bound 0.21 for the model mean, 0.08 for R2 under a response shift, 1e-4 for R2/SDEC^2 against the long double reference; the existing first-order bound on the new predictor-offset class: 0.2 over 4000 models)",
+        "inputs inside the quantifier: n 4..50, p 1..min(10,n-1), cond([1 X]) <= 1e4, responses non-constant, |mean|/sdev of a response < 1e9, no data value within 2 of the missing-value code 99999999; sampled (seeded), one input class per case",
+        "histories: glibc malloc (gcc -O2 build) and ASan allocator; whether a later design matrix lands on the address of an earlier one is observed per step (probe of the next 24-byte block), not assumed",
         "ASan/UBSan build: any sanitizer report is a violation",
     ]
-    lib = build.build_lib("san")
-    exe = build.build_harness("c07", ["c07_drv.c"], lib)
+    exe, exes = _builds()
     rd = tlc.rundir()
     try:
         if ctx.quick:
-            n = exact_part(ctx, exe, rd, [("MC_Mlr_quick.cfg", 8, "gen_all_3x1"), ("MC_Mlr_sample.cfg", 6, "gen_sample")])
-            events = validate_part(ctx, exe, rd, 600, 8)
+            n, tu = exact_part(ctx, exe, rd, [("MC_Mlr_quick.cfg", 8, "gen_all_3x1"), ("MC_Mlr_sample.cfg", 6, "gen_sample")], loc_full=700, loc_stride=7)
+            events = validate_part(ctx, exe, rd, 720, 8)
+            hev = history_part(ctx, exes, rd, 50)
+            tiny_history_part(ctx, exes, rd, 3)
         else:
-            n = exact_part(ctx, exe, rd, [("MC_Mlr_quick.cfg", 16, "gen_all_3x1"), ] + [
-                (dict(Mode="all", NN=4, PP=1, Samples=1, Chains=1, Slice=k), 16, "gen_all_4x1_slice%d" % k) for k in range(1, 6)] + [("MC_Mlr_sample_thorough.cfg", 16, "gen_sample")], units="rot")
-            events = validate_part(ctx, exe, rd, 20000, 16)
+            n, tu = exact_part(ctx, exe, rd, [("MC_Mlr_quick.cfg", 16, "gen_all_3x1"), ] + [
+                (dict(Mode="all", NN=4, PP=1, Samples=1, Chains=1, Slice=k), 16, "gen_all_4x1_slice%d" % k) for k in range(1, 6)] + [("MC_Mlr_sample_thorough.cfg", 16, "gen_sample")], units="rot", loc_full=2500, loc_stride=10)
+            events = validate_part(ctx, exe, rd, 18000, 16)
+            hev = history_part(ctx, exes, rd, 1200)
+            tiny_history_part(ctx, exes, rd, 5)
         ctx.cov["rule"] = ("exact part: every full-rank (X, y) with X in {-2..2}^(3x1), y in {-2..2}^3 (thorough: also 4x1) plus random shapes n 3..5, p 1..2 over the same alphabet, "
-                           "each a distinct case keyed by (X, y), non-trivial iff y is not constant; validate part: seeded random problems n 4..50, p 1..min(10,n-2), 1..4 responses, "
-                           "noise class 0/5%/70%/600%, column scales 10^[-1.5,1.5], offsets up to 30 spreads, cond([1 X]) <= 1e4, keyed by (n, p, ny, noise class)")
+                           "each a distinct case keyed by (X, y), non-trivial iff y is not constant; location units keyed by (X, y, unit); validate part: seeded random problems n 4..50, p 1..min(10,n-1), 1..4 responses, "
+                           "noise class 0/5%/70%/600%, one input class per case in a fixed cycle (base: column scales 10^[-1.5,1.5], offsets up to 30 spreads; K3 responses at |mean|/sdev 1e2..3e8; K3 predictors; K1; K2; K4; K5/K8; sum of responses = 99999999), "
+                           "cond([1 X]) <= 1e4, keyed by (n, p, ny, noise class, input class); histories keyed by (build, history, step); TLC's histories keyed by (build, operations)")
         ctx.cov["exact_cases_replayed"] = n
         try:
-            selftests(ctx, events)
-        except InfraError as e:
+            selftests(ctx, events, hev, tu)
+        except (InfraError, tlc.TlcInfraError) as e:
             if not ctx.violations:
                 raise
-            ctx.note("binding self-test not conclusive on a trace that already carries violations: %s" % e)
+            ctx.note("binding self-test not conclusive on a trace that already carries violations: %s" % str(e)[:300])
     finally:
         shutil.rmtree(rd, ignore_errors=True)
 
 
 def replay(ctx, body):
     case = body.get("case") or {}
-    lib = build.build_lib("san")
-    exe = build.build_harness("c07", ["c07_drv.c"], lib)
+    exe, exes = _builds()
     rd = tlc.rundir()
     try:
-        if case.get("kind") in ("case", "range"):
+        kind = case.get("kind")
+        if kind in ("case", "range"):
             idx = case.get("idx", case.get("first"))
             validate_part(ctx, exe, rd, 1, 1, only=dict(seed=case.get("seed", body.get("seed", ctx.seed)), idx=idx, count=case.get("count", 1)))
             ctx.case(("replay", idx))
             ctx.case(("replay2", idx))
-        elif case.get("kind") == "tiny":
+        elif kind == "hist":
+            history_part(ctx, exes, rd, 1, only=dict(seed=case.get("seed", body.get("seed", ctx.seed)), h=case.get("h", 0), build=case.get("build")))
+            ctx.case(("replay", case.get("h")))
+            ctx.case(("replay2", case.get("h")))
+        elif kind == "tinyhist" and case.get("hist"):
+            tiny_history_part(ctx, exes, rd, len(case["hist"]["ops"]), only=dict(hist=case["hist"], build=case.get("build")))
+            ctx.case(("replay", str(case["hist"]["ops"])))
+            ctx.case(("replay2", str(case["hist"]["ops"])))
+        elif kind == "tinyu":
+            path = os.path.join(rd, "one.txt")
+            X, y = case["X"], case["y"]
+            with open(path, "w") as f:
+                f.write("%d %d %s %s 1 %s 2\n" % (len(X), len(X[0]), " ".join(str(v) for r in X for v in r), " ".join(str(v) for v in y), " ".join("0" for _ in X[0])))
+            out, evout = os.path.join(rd, "one.ndjson"), os.path.join(rd, "one_loc.ndjson")
+            h = hrun.run(exe, ["--replay", path, out, "all", evout], timeout=120)
+            tu = [e for e in hrun.read_ndjson(evout) if case.get("u") is None or e["u"] == case["u"]]
+            if h.san or not tu:
+                ctx.violation("MLR:%s" % (h.san or "crash"), h.err[:1200], case)
+            else:
+                tinyu_part(ctx, tu, "replay_tinyu")
+            ctx.case(("replay", str(X)))
+            ctx.case(("replay2", str(y)))
+            ctx.sample(case)
+        elif kind == "tiny":
             # one tiny case: TLC recomputes the exact coefficients from the case itself (Tiny event of the trace spec)
             path = os.path.join(rd, "one.txt")
             X, y, xnew = case["X"], case["y"], case["xnew"]
             with open(path, "w") as f:
-                f.write("%d %d %s %s %d %s\n" % (len(X), len(X[0]), " ".join(str(v) for r in X for v in r), " ".join(str(v) for v in y), len(xnew), " ".join(str(v) for r in xnew for v in r)))
+                f.write("%d %d %s %s %d %s 0\n" % (len(X), len(X[0]), " ".join(str(v) for r in X for v in r), " ".join(str(v) for v in y), len(xnew), " ".join(str(v) for r in xnew for v in r)))
             out = os.path.join(rd, "one.ndjson")
             h = hrun.run(exe, ["--replay", path, out, "all"], timeout=120)
             res = [g for g in hrun.read_ndjson(out) if (g.get("e", 0), g.get("f", 0), g.get("g", 0)) == (case.get("e", 0), case.get("f", 0), case.get("g", 0))]
